@@ -140,14 +140,14 @@ def extra_programs(genfn, nq, nt, per=120, what='the compiled program observes b
                 if 'compile_error' in res:
                     nviol += 1
                     if nviol <= 3:
-                        violation(f'twin-compile-{res["start"]}', dict(
+                        violation(f'twin-compile-{genfn.__name__[4:]}-{res["start"]}', dict(
                             what='a type definition the standard derives accept does not compile with derive_ex (or the twin program is broken)',
                             program=res['src'], stderr=res['compile_error']))
                     continue
                 types += len(res['cases'])
                 if res['rc'] != 0:
                     nviol += 1
-                    violation(f'twin-crash-{res["start"]}', dict(what='twin program crashed', program=res['src'], stderr=res['err']))
+                    violation(f'twin-crash-{genfn.__name__[4:]}-{res["start"]}', dict(what='twin program crashed', program=res['src'], stderr=res['err']))
                 for line in res['out']:
                     parts = line.split(' ')
                     if len(parts) >= 3 and parts[1] == 'ok':
@@ -158,7 +158,7 @@ def extra_programs(genfn, nq, nt, per=120, what='the compiled program observes b
                         if nviol <= 5:
                             mod = parts[0]
                             item = next((c['item'] for c in res['cases'] if c['mod'] == mod), '')
-                            violation(f'twin-{mod}', dict(
+                            violation(f'twin-{genfn.__name__[4:]}-{mod}', dict(
                                 what=what,
                                 property=prop, observation=line, item=item, program=res['src']))
                 if not fails and 'compile_error' not in res:
@@ -446,7 +446,7 @@ PROPS = {
                                  'DX.body_independent_of_entry'])],
         l1=[('cmp1', 'all', 'all'), ('cmp1all', 20000, 'all'), ('cmpN', 4000, 200000), ('cmpWild', 1000, 50000), ('ext', 24000, 640000)],
         labels=r':(PartialEq|PartialOrd|Ord)$',
-        extra=extra_cmp_l2('cmpRun', ('eq', 'pcmp', 'cmp'), 1200, 24000),
+        extra=extras(extra_cmp_l2('cmpRun', ('eq', 'pcmp', 'cmp'), 1200, 24000), extra_programs(l2gen.gen_macro_value_program, 80, 1600, per=40, what='an item, a helper-attribute argument or an impl body that comes out of a macro_rules! macro changed its value: a fragment lost its grouping')),
         explanation='theorems: for every item, accepted attribute placement, environment and value pair the generated ==/partial_cmp/cmp equal the documented lexicographic rule; L1: the exhaustive 3136-combination single-field matrix x 4 shapes x 2 entry points (x 31 trait sets in the thorough tier) plus random multi-field items, compared token for token',
     ),
     'C02': dict(
@@ -458,7 +458,7 @@ PROPS = {
                   (CMP + 'C05', ['DX.trait_error_iff_misuse'])],
         l1=[('cmp1', 'all', 'all'), ('cmp1all', 20000, 'all'), ('cmpN', 2000, 100000), ('ext', 24000, 640000)],
         labels=r':(PartialEq|PartialOrd|Ord|Eq|Hash)$',
-        extra=extra_cmp_l2('lawRun', ('eq', 'pcmp', 'cmp', 'hash'), 1200, 24000, laws=True),
+        extra=extras(extra_cmp_l2('lawRun', ('eq', 'pcmp', 'cmp', 'hash'), 1200, 24000, laws=True), extra_programs(l2gen.gen_macro_value_program, 80, 1600, per=40, what='an item, a helper-attribute argument or an impl body that comes out of a macro_rules! macro changed its value: a fragment lost its grouping')),
         explanation='theorems: for every item and every coherent environment (one key per field, lawful field impls) the accepted impls agree: == iff partial_cmp==Some(Equal) iff cmp==Equal, partial_cmp==Some(cmp), == implies equal hasher feeds, cmp flips under swap, == is an equivalence; refusal of everything else is C05.trait_error_iff_misuse. cmp is proved a total order on all values of the item (cmp_lawful: a lexicographic product of lawful comparisons is lawful on one variant, the order of variant positions is lawful, and tag-then-payload of lawful comparisons is lawful), == an equivalence on all values (eq_trans_item). L2: compiled programs with one consistent key, all pairs and triples of values, laws checked on the observed results without any model',
         level_text='Lean 4 theorems over the model (coherence of all accepted combinations, by case analysis over the attribute record and induction over field lists) + exhaustive L1 on the 3136-combination matrix + model-free law checks on compiled programs',
     ),
@@ -518,7 +518,7 @@ PROPS = {
         theorems=[(CMP + 'C06', ['DX.feed_follows_doc', 'DX.equal_inputs_equal_feed', 'DX.feed_injective'])],
         l1=[('cmp1', 'all', 'all'), ('cmpN', 4000, 200000), ('ext', 24000, 640000)],
         labels=r':Hash$',
-        extra=extra_cmp_l2('cmpRun', ('hash', 'hslice'), 1200, 24000),
+        extra=extras(extra_cmp_l2('cmpRun', ('hash', 'hslice'), 1200, 24000), extra_programs(l2gen.gen_macro_value_program, 80, 1600, per=40, what='an item, a helper-attribute argument or an impl body that comes out of a macro_rules! macro changed its value: a fragment lost its grouping')),
     ),
     'C17': dict(
         explanation="theorem: the hidden Eq assertion covers exactly the fields that take part in equality, or their key value; ignored and by-compared fields are exempt (eq_assert_exact). L1; L2: rustc's accept / refuse verdict against that rule, also with Hash derived and #[hash(ignore)].",
